@@ -166,8 +166,6 @@ def run(ctx, R, tier):
                                 return True
                         if any(registry_expr(x) for x in ast.walk(other)):
                             return True
-                    if isinstance(n.ops[0], ast.In) and registry_expr(r):
-                        return True
             return False
         return pred
     alt2 = all(acfg.guarded(n, lambda e, n=n: edge_has_fact(e, currently_registered(n))) for c in pf for n in ctx.node_of(ap, c))
@@ -179,7 +177,7 @@ def run(ctx, R, tier):
     alt1 = bool(dn) and bool(clear_id) and bool(clear_dm) and \
         ucfg.all_paths_pass(dn, lambda n: n in clear_id, targets=[ucfg.exit]) and ucfg.all_paths_pass(dn, lambda n: n in clear_dm, targets=[ucfg.exit])
     R.check(alt1 or alt2, "C16-R4", "auto-proxy|only-while-registered",
-            "proxyFor is reached only under a test that the object is currently in its daemon's registry (or unregister always clears the marks)", ap.loc(pf[0]),
+            "proxyFor is reached only under an identity test of the object against its daemon's registry entry (or unregister always clears the marks)", ap.loc(pf[0]),
             "an object whose registration was removed by id keeps its _pyroDaemon mark and is still turned into a proxy (serialisation then fails "
             "with DaemonError) instead of travelling by value")
     marks = [n for st, t, k in stores_in(reg.node) if k == "assign" and isinstance(t, ast.Attribute) and t.attr in ("_pyroId", "_pyroDaemon")
